@@ -67,7 +67,7 @@ def _delete_allocations_by_ids(ctx, alloc_ids):
     IDs
     """
     del_sql = _ALLOC_TBL.delete().where(_ALLOC_TBL.c.id.in_(alloc_ids))
-    ctx.session.execute(del_sql)
+    return ctx.session.execute(del_sql).rowcount
 
 
 def _check_capacity_exceeded(ctx, allocs):
@@ -541,6 +541,12 @@ def replace_all(context, alloc_list):
 def delete_all(context, alloc_list):
     consumer_uuids = set(alloc.consumer.uuid for alloc in alloc_list)
     alloc_ids = [alloc.id for alloc in alloc_list]
-    _delete_allocations_by_ids(context, alloc_ids)
+    deleted = _delete_allocations_by_ids(context, alloc_ids)
+    if deleted != len(alloc_ids):
+        # The allocations were read in an earlier transaction. Some of them
+        # have meanwhile been deleted or replaced by another request, so
+        # this request must not claim to have removed the consumer's
+        # allocations.
+        raise exception.NotFound()
     consumer_obj.delete_consumers_if_no_allocations(
         context, consumer_uuids)
